@@ -185,6 +185,22 @@ json generate(uint64_t seed, uint64_t idx, int tier)
 		steps.push_back(p);
 	}
 	plan["world"] = world_of(t);
+	// a third of the worlds keep some files elsewhere and reach them through symbolic links in /t
+	if (r.chance(1, 3)) {
+		json links = json::array();
+		for (auto &f : plan["world"]["fs"]) {
+			std::string p = f["path"].get<std::string>();
+			if (f.value("kind", std::string()) != "file" || !f.contains("chunks") || p.compare(0, 3, "/t/") != 0 || !r.chance(1, 2))
+				continue;
+			std::string real = "/real/" + p.substr(3);
+			f["path"] = real;
+			links.push_back({{"path", p}, {"kind", "link"}, {"to", real}});
+			params["links"] = 1;
+		}
+		for (auto &l : links)
+			plan["world"]["fs"].push_back(l);
+		plan["world"]["fs"].push_back({{"path", "/real"}, {"kind", "dir"}});
+	}
 	plan["knobs"] = {{"tty", r.chance(1, 8)}, {"fill", 0xA5}};
 	plan["steps"] = steps;
 	plan["params"] = params;
@@ -209,8 +225,11 @@ const json *fs_entry(const json &plan, const std::string &path)
 	if (!plan.contains("world") || !plan["world"].contains("fs"))
 		return nullptr;
 	for (auto &f : plan["world"]["fs"])
-		if (f.value("path", std::string()) == path)
+		if (f.value("path", std::string()) == path) {
+			if (f.value("kind", std::string()) == "link") // opened through a symbolic link: the contents are the target's
+				return fs_entry(plan, f["to"].get<std::string>());
 			return &f;
+		}
 	return nullptr;
 }
 
@@ -317,6 +336,9 @@ bool baseline_accepted(const json &plan, size_t step_index, JudgeOut &out)
 			p = "/t/" + p.substr(2);
 		else if (p.empty() || p[0] != '/')
 			p = "/t/" + p;
+		for (auto &f : bp["world"]["fs"])
+			if (f.value("path", std::string()) == p && f.value("kind", std::string()) == "link")
+				p = f["to"].get<std::string>();
 		for (auto &f : bp["world"]["fs"])
 			if (f.value("path", std::string()) == p && f.contains("chunks"))
 				chunks = &f["chunks"];
